@@ -10,8 +10,9 @@ The queue / dependency half of the sanity checks as an inductive invariant, part
 * `cnt` — **the dependency count**: for every task `c` of the map, the number of tasks (other than `f`) that list
   `c` as a consumer is at most `slack c.state` (`n` for `Waiting n`, 0 for every other state); `pend` = consumers of
   `f` whose counter has not been decremented yet (they owe one);
-* `qg` — every id in ready/prefill queue `i` is in `U`, is (if known) a task of request `i`, and no task other than
-  `f` lists it as a consumer.
+* `qg` — every id in ready/prefill queue `i` is in `U`, is (if known) a task of request `i` whose state has no
+  slack (`Waiting 0` or not Waiting), and no task other than `f` lists it as a consumer.
+(Not claimed, because false of the model: that a queued id IS a task of the map — see `CoreQueueWitness.lean`.)
 
 `Safe s s'` = every instance of `QInv` that holds in `s` holds in `s'` (a preorder, so it chains through the
 intermediate states of an operation).
@@ -326,6 +327,8 @@ structure QGood (U : List TaskId) (f : Option TaskId) (ts : List Task) (i : Nat)
   u : id ∈ U
   rq : ∀ t, findTask ts id = some t → t.rq = i
   nl : ∀ dt ∈ ts, id ∈ dt.consumers → some dt.id = f
+  /-- a queued task has no unfinished dependency: it is `Waiting 0` or not Waiting -/
+  z : ∀ t, findTask ts id = some t → slack t.state = 0
 
 structure QInv4 (U : List TaskId) (f : Option TaskId) (pend : List TaskId) (ts : List Task) (qs : List Queue) : Prop where
   nd : (taskIds ts).Nodup
@@ -374,7 +377,7 @@ structure PutOk (told t' : Task) : Prop where
   rq : t'.rq = told.rq
   cons : ∀ c ∈ t'.consumers, c ∈ told.consumers
   cnd : told.consumers.Nodup → t'.consumers.Nodup
-  sl : slack told.state ≤ slack t'.state
+  sl : slack t'.state = slack told.state
   fin : t'.state = .finished → told.state = .finished
 
 theorem QInv4.put {U f pend ts qs} (h : QInv4 U f pend ts qs) {t' told : Task} (hf : findTask ts t'.id = some told)
@@ -424,8 +427,8 @@ theorem QInv4.put {U f pend ts qs} (h : QInv4 U f pend ts qs) {t' told : Task} (
       have := hle c
       omega
   · intro i q hq id hid'
-    obtain ⟨g1, g2, g3⟩ := h.qg i q hq id hid'
-    refine ⟨g1, ?_, ?_⟩
+    obtain ⟨g1, g2, g3, g4⟩ := h.qg i q hq id hid'
+    refine ⟨g1, ?_, ?_, ?_⟩
     · intro t ht
       rw [findTask_putTask] at ht
       split at ht
@@ -439,6 +442,16 @@ theorem QInv4.put {U f pend ts qs} (h : QInv4 U f pend ts qs) {t' told : Task} (
     · intro dt hdt hc
       obtain ⟨y, hy, e, e2, _⟩ := hsub dt hdt
       rw [e]; exact g3 y hy (e2 _ hc)
+    · intro t ht
+      rw [findTask_putTask] at ht
+      split at ht
+      · rename_i e
+        subst e
+        rw [hf] at ht
+        simp only [Option.map_some, Option.some.injEq] at ht
+        subst ht
+        rw [hok.sl]; exact g4 told hf
+      · exact g4 t ht
 
 theorem Safe.setTask {s : State} {t' told : Task} (hf : findTask s.tasks t'.id = some told) (hok : PutOk told t') :
     Safe s (s.setTask t') := fun _ _ _ h => QInv4.put h hf hok
@@ -459,8 +472,9 @@ theorem QInv4.erase {U f pend ts qs} (h : QInv4 U f pend ts qs) (id : TaskId) :
     have := nL_eraseTask_le f ts id c
     omega
   · intro i q hq x hx
-    obtain ⟨g1, g2, g3⟩ := h.qg i q hq x hx
-    exact ⟨g1, fun t ht => g2 t (hfind x t ht), fun dt hdt hc => g3 dt (mem_eraseTask hdt) hc⟩
+    obtain ⟨g1, g2, g3, g4⟩ := h.qg i q hq x hx
+    exact ⟨g1, fun t ht => g2 t (hfind x t ht), fun dt hdt hc => g3 dt (mem_eraseTask hdt) hc,
+      fun t ht => g4 t (hfind x t ht)⟩
 
 theorem Safe.erase (s : State) (id : TaskId) : Safe s { s with tasks := eraseTask s.tasks id } :=
   fun _ _ _ h => QInv4.erase h id
@@ -471,11 +485,12 @@ theorem Safe.addReady {s s' : State} {t t0 : Task} {r : List TaskId} (hf : findT
   have ht := addReady_tasks h
   unfold QInv at hi ⊢
   rw [ht]
-  refine hi.queues ((addReady_qsub h).all hi.qg ⟨?_, ?_, ?_⟩)
+  refine hi.queues ((addReady_qsub h).all hi.qg ⟨?_, ?_, ?_, ?_⟩)
   · have := hi.uT t0 (findTask_some_mem hf)
     rw [findTask_some_id hf] at this; exact this
   · intro t1 h1; rw [hf] at h1; cases h1; exact hrq
   · exact hi.nl_of_slack hf hs
+  · intro t1 h1; rw [hf] at h1; cases h1; exact hs
 
 theorem Safe.queueRemove {s s' : State} {rq : Nat} {t : TaskId} {p : Int} (h : s.queueRemove rq t p = .ok s') :
     Safe s s' := Safe.of_qsub (queueRemove_tasks h) (queueRemove_qsub h)
@@ -515,7 +530,7 @@ theorem Safe.resetMnChecked {ws : List Nat} {s s' : State} {id : TaskId} (h : re
 
 /-- only the state (and the instance id / crash counter) of a record changes, to a state without slack obligations -/
 theorem PutOk.mk' {told : Task} {st : TS} {deps : List TaskId} {prio : Int} {cl : CrashLimit} {inst crashes : Nat}
-    (hs : slack told.state ≤ slack st) (hf : st = .finished → told.state = .finished) :
+    (hs : slack st = slack told.state) (hf : st = .finished → told.state = .finished) :
     PutOk told ⟨told.id, st, told.consumers, deps, told.rq, prio, cl, inst, crashes⟩ :=
   ⟨rfl, fun _ h => h, fun h => h, hs, hf⟩
 
